@@ -394,7 +394,11 @@ func (w *world) Setup(e *sim.Env) {
 	case 3:
 		var c *glru.ECache[*mkey, string, *item]
 		c, err = glru.NewECache[*mkey, string, *item](w.capa, mMap, func(k *mkey) (*item, error) {
-			it, _, err := w.load(k.A)
+			// the create function works on the caller's key object too (say, it canonicalises it in
+			// place): the cache filed the entry under the inner key it computed when the call was made
+			a := k.A
+			k.A = "~" + a
+			it, _, err := w.load(a)
 			return it, err
 		}, pick(w.noCB, nil, func(k *mkey, v *item) {
 			// the stored key object has been overwritten since: the entry is identified by its value
